@@ -208,6 +208,9 @@ func init() {
 		"strconv.AppendUint":  strconvAppend,
 		"strconv.AppendFloat": strconvAppendFloat,
 		"strconv.ParseFloat":  strconvParseFloat,
+		"strconv.ParseInt":    strconvParseInt,
+		"strconv.ParseUint":   strconvParseInt,
+		"strconv.Atoi":        strconvParseInt,
 		"strconv.Quote":       strconvQuote,
 		// time
 		"time.Now":   timeNow,
@@ -520,9 +523,25 @@ func mathIsInf(fr *frame, a []value) value {
 
 func placeholder(v value) string { return "⟦" + termOf(v) + "⟧" }
 
+// intRendering: a symbolic integer rendered by FormatInt/FormatUint/Itoa.
+type intRendering struct {
+	v      value
+	base   int
+	signed bool
+}
+
 func strconvFormat(fr *frame, a []value) value {
 	if isSym(a[0]) {
-		return placeholder(a[0])
+		ph := placeholder(a[0])
+		base := 10
+		if fr.fn.Name() != "Itoa" {
+			base = int(asInt64(a[1]))
+		}
+		if fr.i.intRenderings == nil {
+			fr.i.intRenderings = map[string]intRendering{}
+		}
+		fr.i.intRenderings[ph] = intRendering{a[0], base, fr.fn.Name() != "FormatUint"}
+		return ph
 	}
 	switch fr.fn.Name() {
 	case "FormatInt":
@@ -533,9 +552,29 @@ func strconvFormat(fr *frame, a []value) value {
 	return strconv.Itoa(int(asInt64(a[0])))
 }
 
+// floatPlaceholders remembers, per rendered placeholder, the float term it
+// stands for and how it was formatted, so that ParseFloat of the rendering can
+// apply strconv's round-trip contract instead of failing on the placeholder.
+type floatRendering struct {
+	v        sym
+	fmtc     byte
+	prec, bs int
+}
+
+func (i *interpreter) renderFloat(v value, fmtc byte, prec, bs int) string {
+	ph := placeholder(v)
+	if s, ok := v.(sym); ok {
+		if i.floatRenderings == nil {
+			i.floatRenderings = map[string]floatRendering{}
+		}
+		i.floatRenderings[ph] = floatRendering{s, fmtc, prec, bs}
+	}
+	return ph
+}
+
 func strconvFormatFloat(fr *frame, a []value) value {
 	if isSym(a[0]) {
-		return placeholder(a[0])
+		return fr.i.renderFloat(a[0], byte(asInt64(a[1])), int(asInt64(a[2])), int(asInt64(a[3])))
 	}
 	return strconv.FormatFloat(a[0].(float64), byte(asInt64(a[1])), int(asInt64(a[2])), int(asInt64(a[3])))
 }
@@ -561,7 +600,7 @@ func strconvAppend(fr *frame, a []value) value {
 func strconvAppendFloat(fr *frame, a []value) value {
 	dst := a[0].([]value)
 	if isSym(a[1]) {
-		return appendStr(dst, placeholder(a[1]))
+		return appendStr(dst, fr.i.renderFloat(a[1], byte(asInt64(a[2])), int(asInt64(a[3])), int(asInt64(a[4]))))
 	}
 	return appendStr(dst, strconv.FormatFloat(a[1].(float64), byte(asInt64(a[2])), int(asInt64(a[3])), int(asInt64(a[4]))))
 }
@@ -578,11 +617,51 @@ func strconvParseFloat(fr *frame, a []value) value {
 		// symbolic digits: interpret strconv's own code
 		return callSSA(fr.i, fr, token.NoPos, fr.fn, a, nil, true)
 	}
+	if r, isR := fr.i.floatRenderings[s]; isR && int(asInt64(a[1])) == 64 && r.v.k == types.Float64 {
+		// strconv's contract for the shortest rendering (precision -1): parsing
+		// it gives back the value when it was formatted as a 64-bit float; when
+		// it was formatted as a 32-bit float, some float64 that rounds to the
+		// same float32. Finite values only (NaN/Inf render as words that parse too).
+		if r.prec == -1 && r.bs == 64 {
+			return tuple{r.v, iface{}}
+		}
+		if r.prec == -1 && r.bs == 32 {
+			f := fr.i.mkFloat(types.Float64, fr.i.ex.fresh("(_ FloatingPoint 11 53)", "parsed"))
+			fr.i.ex.assume(fmt.Sprintf("(= ((_ to_fp 8 24) RNE %s) ((_ to_fp 8 24) RNE %s))", f.t, r.v.t))
+			return tuple{f, iface{}}
+		}
+		// a fixed precision loses digits: any float64
+		f := fr.i.mkFloat(types.Float64, fr.i.ex.fresh("(_ FloatingPoint 11 53)", "parsed"))
+		return tuple{f, iface{}}
+	}
 	f, err := strconv.ParseFloat(s, int(asInt64(a[1])))
 	if err != nil {
 		return tuple{f, fr.i.errValue(err.Error())}
 	}
 	return tuple{f, iface{}}
+}
+
+// strconvParseInt: parsing the rendering of a symbolic integer gives the
+// integer back (same signedness, base 10 or matching base, 64-bit result);
+// everything else is strconv's own code.
+func strconvParseInt(fr *frame, a []value) value {
+	if s, ok := a[0].(string); ok {
+		if r, isR := fr.i.intRenderings[s]; isR {
+			name := fr.fn.Name()
+			base, bits := 10, 0
+			if name != "Atoi" {
+				base, bits = int(asInt64(a[1])), int(asInt64(a[2]))
+			}
+			if (base == r.base || base == 0 && r.base == 10) && (bits == 0 || bits == 64) && r.signed == (name != "ParseUint") {
+				v := r.v
+				if name == "Atoi" {
+					v = fr.i.conv(types.Typ[types.Int], types.Typ[types.Int64], v)
+				}
+				return tuple{v, iface{}}
+			}
+		}
+	}
+	return callSSA(fr.i, fr, token.NoPos, fr.fn, a, nil, true)
 }
 
 func strconvQuote(fr *frame, a []value) value {
